@@ -196,26 +196,17 @@ Proof. apply run_ops_nodup; constructor. Qed.
 Lemma NoDup_flat_map_in {A B} (f : A -> list B) (l : list A) x :
   NoDup (flat_map f l) -> In x l -> NoDup (f x).
 Proof.
-  induction l as [|y l IH]; simpl; intros H [->|Hin].
+  induction l as [|y l IH]; simpl; intros H Hin; [contradiction|]. destruct Hin as [->|Hin].
   - clear IH. induction (f x) as [|z zs IHz]; [constructor|]. simpl in H. inversion H as [|? ? Hn Hr]; subst.
     constructor; [intros Hz; apply Hn, in_or_app; left; exact Hz | exact (IHz Hr)].
   - exact (IH (NoDup_app_drop_l _ _ H) Hin).
 Qed.
 Lemma NoDup_app_disjoint {A} (X Y : list A) t : NoDup (X ++ Y) -> In t X -> In t Y -> False.
 Proof.
-  induction X as [|x X IH]; simpl; intros H [->|Hx] Hy; inversion H as [|? ? Hn Hr]; subst.
+  induction X as [|x X IH]; simpl; intros H Hx Hy; [contradiction|]. destruct Hx as [->|Hx]; inversion H as [|? ? Hn Hr]; subst.
   - apply Hn, in_or_app. right; exact Hy.
   - exact (IH Hr Hx Hy).
 Qed.
-Lemma NoDup_flat_map_same {A B} (f : A -> list B) (l : list A) x y t :
-  NoDup (flat_map f l) -> NoDup l -> In x l -> In y l -> In t (f x) -> In t (f y) -> x = y.
-Proof.
-  induction l as [|z l IH]; simpl; intros H Hl [->|Hx] [->|Hy] Tx Ty; try reflexivity; inversion Hl; subst.
-  - exfalso. eapply NoDup_app_disjoint; [exact H | exact Tx | apply in_flat_map; exists y; auto].
-  - exfalso. eapply NoDup_app_disjoint; [exact H | exact Ty | apply in_flat_map; exists x; auto].
-  - eapply IH; eauto. exact (NoDup_app_drop_l _ _ H).
-Qed.
-
 Theorem one_list_reachable l a r : lookup a (st_febs (exec l)) = Some r -> NoDup (map w_tid (waiters_of r)).
 Proof.
   intros E. apply lookup_In in E.
@@ -229,7 +220,8 @@ Proof.
   intros Ea Eb Ta Tb. destruct (N.eq_dec a b) as [|Hn]; [assumption|]. exfalso.
   apply lookup_In in Ea. apply lookup_In in Eb.
   pose proof (blocked_once_reachable l) as H. rewrite blocked_tids_bt in H. unfold bt in H.
-  revert H Ea Eb. generalize (st_febs (exec l)). intros febs. induction febs as [|z febs IH]; simpl; intros H [->|Ea] [Eb|Eb]; subst.
+  revert H Ea Eb. generalize (st_febs (exec l)). intros febs. induction febs as [|z febs IH]; simpl; intros H Ea Eb; [contradiction|].
+  destruct Ea as [->|Ea]; destruct Eb as [Eb|Eb]; subst.
   - inversion Eb; congruence.
   - eapply NoDup_app_disjoint; [exact H | exact Ta | apply in_flat_map; exists (b, r'); auto].
   - eapply NoDup_app_disjoint; [exact H | exact Tb | apply in_flat_map; exists (a, r); auto].
